@@ -349,7 +349,7 @@ public:
 private:
   /// \brief Constructor. Constructs a time quantity with a given value expressed in the standard
   /// time unit.
-  explicit constexpr Time(const NumericType value) : DimensionalScalar<Unit::Time>(value) {}
+  explicit constexpr Time(const NumericType value) : DimensionalScalar<Unit::Time, NumericType>(value) {}
 };
 
 template <typename NumericType>
